@@ -251,3 +251,86 @@ class Grammar:
                 if self.peg_match(e, s, 0) == n:
                     out.append(s)
         return out
+
+
+    # ---- PEG evaluation with pest's implicit whitespace (non-atomic rules)
+    def _skip(self, text, pos):
+        ws = self.rules.get("WHITESPACE")
+        cm = self.rules.get("COMMENT")
+        while True:
+            moved = False
+            for r in (ws, cm):
+                if r is None:
+                    continue
+                p1 = self.peg(r["expr"], text, pos, True)
+                if p1 is not None and p1 > pos:
+                    pos, moved = p1, True
+            if not moved:
+                return pos
+
+    def peg(self, e, text, pos=0, atomic=False, depth=0):
+        """end position of the match of e at pos, or None; `~` and repetitions skip WHITESPACE / COMMENT between
+        their elements unless atomic (pest's rewriting of non-atomic rules)"""
+        if depth > 400:
+            return None
+        k = e["k"]
+        if k in ("str", "insens", "range"):
+            return self.peg_match(e, text, pos)
+        if k == "ident":
+            v = e["v"]
+            if v == "NEWLINE":
+                for nl in ("\r\n", "\n", "\r"):
+                    if text.startswith(nl, pos):
+                        return pos + len(nl)
+                return None
+            if v in ("ASCII_DIGIT", "ASCII_NONZERO_DIGIT", "ANY", "SOI", "EOI"):
+                return self.peg_match(e, text, pos)
+            if v == "ASCII_ALPHA":
+                return pos + 1 if pos < len(text) and text[pos].isascii() and text[pos].isalpha() else None
+            if v == "ASCII_ALPHANUMERIC":
+                return pos + 1 if pos < len(text) and text[pos].isascii() and text[pos].isalnum() else None
+            r = self.rules.get(v)
+            if r is None:
+                return None
+            at = atomic
+            if r["ty"] in ("atomic", "compound_atomic"):
+                at = True
+            elif r["ty"] == "non_atomic":
+                at = False
+            return self.peg(r["expr"], text, pos, at, depth + 1)
+        if k == "seq":
+            p1 = self.peg(e["a"], text, pos, atomic, depth + 1)
+            if p1 is None:
+                return None
+            if not atomic:
+                p1 = self._skip(text, p1)
+            return self.peg(e["b"], text, p1, atomic, depth + 1)
+        if k == "choice":
+            p1 = self.peg(e["a"], text, pos, atomic, depth + 1)
+            return p1 if p1 is not None else self.peg(e["b"], text, pos, atomic, depth + 1)
+        if k == "opt":
+            p1 = self.peg(e["e"], text, pos, atomic, depth + 1)
+            return pos if p1 is None else p1
+        if k in ("rep", "rep1"):
+            cur = self.peg(e["e"], text, pos, atomic, depth + 1)
+            if cur is None:
+                return pos if k == "rep" else None
+            while True:
+                nxt = cur if atomic else self._skip(text, cur)
+                p1 = self.peg(e["e"], text, nxt, atomic, depth + 1)
+                if p1 is None or p1 == nxt:
+                    break
+                cur = p1
+            return cur
+        if k == "pospred":
+            return pos if self.peg(e["e"], text, pos, atomic, depth + 1) is not None else None
+        if k == "negpred":
+            return pos if self.peg(e["e"], text, pos, atomic, depth + 1) is None else None
+        if k == "push":
+            return self.peg(e["e"], text, pos, atomic, depth + 1)
+        return None
+
+    def accepts(self, rule, text):
+        r = self.rules[rule]
+        p1 = self.peg(r["expr"], text, 0, r["ty"] in ("atomic", "compound_atomic"))
+        return p1 is not None
